@@ -434,5 +434,5 @@ func firstDiff(a, b []byte) int {
 }
 
 func TestProp(t *testing.T) {
-	vt.Run(t, prop, vt.Sub[Case]{Prop: prop, Name: "vlen", Gen: gen, Run: run, Classify: classify}.WithBudget(400, 4000))
+	vt.Run(t, prop, vt.Sub[Case]{Prop: prop, Name: "vlen", Gen: gen, Run: run, Classify: classify}.WithBudget(2000, 8000))
 }
